@@ -57,7 +57,7 @@ pub struct Tracer<'a> {
 }
 
 impl<'a> Tracer<'a> {
-    fn emit(&mut self, mut v: Value, board: &Board) {
+    pub fn emit(&mut self, mut v: Value, board: &Board) {
         v["obs"] = obs(board);
         if self.with_sum {
             v["sum"] = summaries(board);
@@ -378,6 +378,58 @@ pub fn parse_fen(fen: &str) -> Pos {
     Pos { b, turn: if parts[1] == "w" { 1 } else { 0 }, rights, ep }
 }
 
+/// direct editing of a board through the public API, including operations that are refused
+fn edit_history(tr: &mut Tracer, rng: &mut Rng, ops: usize) {
+    let mut board = Board::new();
+    tr.emit(json!({"ev": "EReset"}), &board);
+    let mut ep_depth = 0;
+    for _ in 0..ops {
+        match rng.below(10) {
+            0..=4 => {
+                let sq = 1 + rng.below(64) as u32;
+                let code = 1 + rng.below(12) as u8;
+                let (p, c) = piece_of_code(code);
+                let res = match guarded(|| board.put(bb(sq), p, c)) {
+                    Ok(Ok(())) => "ok".to_string(),
+                    Ok(Err(_)) => "err".to_string(),
+                    Err(e) => format!("panic: {}", e),
+                };
+                tr.emit(json!({"ev": "Put", "sq": sq, "code": code, "res": res}), &board);
+            }
+            5..=6 => {
+                let sq = 1 + rng.below(64) as u32;
+                let res = match guarded(|| board.remove(bb(sq))) {
+                    Ok(Some((p, c))) => code(p, c) as u64,
+                    Ok(None) => 0,
+                    Err(_) => 99,
+                };
+                tr.emit(json!({"ev": "Remove", "sq": sq, "res": res}), &board);
+            }
+            7 => {
+                let mask = rng.below(16) as u8;
+                board.lose_castle_rights(mask);
+                tr.emit(json!({"ev": "LoseRights", "mask": mask}), &board);
+            }
+            8 => {
+                if ep_depth > 0 && rng.chance(1, 2) {
+                    board.pop_en_passant_target();
+                    ep_depth -= 1;
+                    tr.emit(json!({"ev": "PopEp"}), &board);
+                } else {
+                    let e = if rng.chance(1, 4) { 0 } else { (if rng.chance(1, 2) { 17 } else { 41 }) + rng.below(8) as u32 };
+                    board.push_en_passant_target(bb(e));
+                    ep_depth += 1;
+                    tr.emit(json!({"ev": "PushEp", "sq": e}), &board);
+                }
+            }
+            _ => {
+                board.toggle_turn();
+                tr.emit(json!({"ev": "Toggle"}), &board);
+            }
+        }
+    }
+}
+
 /// record-trace <out> --scenario walk|clock|repetition|scripts --seed N --games G --plies P [--seeds file] [--sum]
 pub fn main(args: &[String]) {
     let out_path = &args[0];
@@ -396,7 +448,12 @@ pub fn main(args: &[String]) {
     let mut tr = Tracer { out: &mut file, with_sum, events: 0 };
     let mut gen = MoveGenerator::new();
     let mut histories = 0;
-    if scenario == "scripts" {
+    if scenario == "edit" {
+        for _ in 0..games {
+            edit_history(&mut tr, &mut rng, plies);
+            histories += 1;
+        }
+    } else if scenario == "scripts" {
         for (_, fen, mv) in SCRIPTS.iter() {
             let ms: Vec<&str> = mv.split_whitespace().collect();
             scripted(&mut tr, &mut gen, parse_fen(fen).setup(), &ms);
